@@ -29,3 +29,30 @@ Print Assumptions C02_reset_fresh.
 (** PrequentialError.reset *)
 Theorem C02_prequential_reset : forall (A : Arith) (s : preq_st A), preq_reset s = preq_init.
 Proof. reflexivity. Qed.
+
+(** IncrementalKSTest (every number system, window_size >= 1): whatever happened before a
+    reset, every later update returns exactly what a new instance driven by the calls made
+    since the reset returns (MissingFitError until re-fitted, then the same result). *)
+From FV Require Import IKS IKSR MMD MMDR ResetDD RealA.
+From Coq Require Import Reals.
+Theorem C02_iks_reset_fresh : forall (A : Arith) (w : Z) (pre post : list (@iop A)) (v : NumSys.num A), (1 <= w)%Z ->
+  match fst (iks_hist post) with
+  | None => iks_update (iks_exec w (pre ++ IRst :: post)) v = Raise MissingFitError /\
+            iks_update (iks_exec w post) v = Raise MissingFitError
+  | Some ref => exists s1 s2 out,
+      iks_update (iks_exec w (pre ++ IRst :: post)) v = Ok (s1, out) /\
+      iks_update (iks_exec w post) v = Ok (s2, out)
+  end.
+Proof. intros A. exact (@iks_reset_fresh A). Qed.
+Print Assumptions C02_iks_reset_fresh.
+
+(** Streaming MMD (over R, kernel with k x x = 1, window_size >= 2, well-shaped calls): the
+    outputs of everything after a reset equal those of a new instance. *)
+Theorem C02_mmd_streaming_reset_fresh : forall (k : pt RealA -> pt RealA -> R), (forall x, k x x = 1%R) ->
+  forall (chunk : option Z) (w : Z), (2 <= w)%Z -> chunk_ok chunk ->
+  forall (sh : shape) (pre post : list (sev RealA)),
+  Forall (ev_good sh) pre -> Forall (ev_good sh) post ->
+  exists s0, ms_new w chunk = Ok s0 /\
+    skipn (S (length pre)) (snd (ms_run k chunk s0 (pre ++ SReset :: post))) = snd (ms_run k chunk s0 post).
+Proof. exact mmd_streaming_reset_fresh. Qed.
+Print Assumptions C02_mmd_streaming_reset_fresh.
